@@ -1009,10 +1009,27 @@ def m_ord(I, st, info, args, depth):
 def m_time_transform(I, st, info, args, depth):
     a = deref(I, st, args[0])
     op = info["tdef"].split("::")[-1]
+    # to_offset and + / - of a duration panic when the result leaves the supported range (years -9999..=9999); an instant read from
+    # the clock is assumed to be far from those ends, an instant parsed from token content (or of unknown origin) is not
+    rkey = ("time range", info["fn"], M.short(info["tdef"]), info["ln"], info["file"])
+    if op in ("to_offset", "add", "sub") and isinstance(a, Sym) and a.attrs.get("now"):
+        I.site_ok(rkey)
+    elif op in ("to_offset", "add", "sub"):
+        s2 = st.clone()
+        s2.cond.append("%s(%s) leaves the supported range of OffsetDateTime" % (op, getattr(a, "name", "?")))
+        I.site_fail(rkey, s2, "the instant is a clock reading (not taken from token content), so that the result stays within years -9999..=9999")
+        out = [(s2, "panic", ("OffsetDateTime::" + op, info["fn"], info["ln"]))]
+        if op == "to_offset" and isinstance(a, Sym):
+            return out + ret(st, a)
+        nm = getattr(a, "name", "?")
+        return out + ret(st, Sym("%s(%s)" % (op, nm), "time::?", attrs={"derived_from": nm, "transform": op}))
     if op == "to_offset" and isinstance(a, Sym):
         return ret(st, a)   # same instant, other rendering
     nm = getattr(a, "name", "?")
-    return ret(st, Sym("%s(%s)" % (op, nm), "time::?", attrs={"derived_from": nm, "transform": op}))
+    at = {"derived_from": nm, "transform": op}
+    if isinstance(a, Sym) and a.attrs.get("now"):
+        at["now"] = True    # a fixed distance from the clock reading
+    return ret(st, Sym("%s(%s)" % (op, nm), "time::?", attrs=at))
 
 
 # ------------------------------------------------------------------ generic trait methods of the crate
@@ -1022,6 +1039,8 @@ def m_get_key(I, st, info, args, depth):
         return None   # resolved to a concrete impl: interpret it
     recv = I.resolve(st, args[0])
     base = deref(I, st, recv)
+    if isinstance(base, Sym) and base.attrs.get("claim_key") is not None:
+        return ret(st, StrV(base.attrs["claim_key"]))
     nm = getattr(base, "name", repr(base))
     return ret(st, Seq("key(%s)" % nm, Aff.sym("len(key(%s))" % nm), kind="str"))
 
